@@ -61,8 +61,8 @@ def stream_prop(fields, trivial, rule):
     return dict(engine='stream', fields=fields + ['shape', 'ops'], trivial_tags=trivial, rule=rule, trusted_base=STREAM_TB, assumptions=STREAM_ASSUME)
 PROPS['C08'] = stream_prop(['op.res', 'op.woken', 'hint0', 'eos0', 'writer'], ['raw:head'],
     'all sequences of <= 4 (quick) / 5 (thorough) operations over {write(0,1,cap-1,cap,cap+1,2cap,3cap bytes), flush, poll-until-pending} for chunk sizes 1..4, each followed by drop + drain (exhaustive); random sequences of <= 40 operations (write, write_all, flush, poll, poll-until-pending, same or fresh waker) for chunk sizes {1,2,3,4,7,4096,65536}. Payload bytes carry their position. Non-trivial = the request has a writer.' + GEN_NOTE)
-PROPS['C11'] = stream_prop(['op.res', 'op.woken', 'op.eos', 'op.hint'], [],
-    'an abort or a body drop inserted at every position of every sequence of <= 3 (quick) / 4 (thorough) operations over {write(1,cap,cap+1,3cap), flush, poll-until-pending} x chunk sizes {1,2,4} x raw and gzip writers, followed by 3 x (write, flush), drain, drop; the 1000 x (write, flush) after body drop scenario; random sequences with a fault.' + GEN_NOTE)
+PROPS['C11'] = stream_prop(['op.res', 'op.woken', 'op.eos', 'op.hint', 'trace'], [],
+    'an abort or a body drop inserted at every position of every sequence of <= 3 (quick) / 4 (thorough) operations over {write(1,cap,cap+1,3cap), flush, poll-until-pending} x chunk sizes {1,2,4} x raw and gzip writers, followed by 3 x (write, flush), drain, drop; the 1000 x (write, flush) after body drop scenario; random sequences with a fault. Concurrent part (engine sched): every producer program of C10 that aborts, and every program against a consumer that drops the body after 0..2 polls, under all schedules (<= 200 quick / 2000 thorough per program) with yield points after every producer lock release and before any second lock acquisition inside one consumer poll; outcome clauses are computed from the executed trace alone (clean end after abort, write/flush succeeding after abort, delivered bytes not a prefix of the accepted bytes, consumer never told).' + GEN_NOTE)
 PROPS['C09'] = stream_prop(['op.res', 'hdrs', 'writer'], [],
     'gzip levels 1..9 x chunk sizes {1,2,3,5,8,10,18,19,4096,65536} x payloads {empty, 1 byte, incompressible, highly compressible, text; 600 B for tiny chunks, 20 KiB (quick) / 200 KiB (thorough)} x 4 write/flush shapes (one write_all; flush in the middle with drains; many small writes with random flushes; flushes before any data), plus random sequences. Every body is decoded by an independent inflater (Python zlib, streaming) after every flush and at the end.' + GEN_NOTE)
 PROPS['C17'] = stream_prop(['hdrs', 'writer', 'op.res'], [],
@@ -79,7 +79,7 @@ PROPS['C18'] = dict(engine='file', fields=['meta', 'polls', 'new'], trivial_tags
     assumptions=['no concurrent writer other than the harness\'s own set_len between polls', 'modification time after the epoch (else etag() panics by an explicit expect)'])
 
 PROPS['C10'] = dict(engine='sched', fields=['trace'], trivial_tags=[],
-    rule='stateless depth-first enumeration of schedules of the real chunker (two OS threads under a baton, decision points: operation boundaries, the point right after every lock release of the producer -- reported by the verif-hooks mutex -- and every consumer poll) for all producer programs of <= 3 (quick) / 4 (thorough) operations over {write(chunk-completing), write(partial), flush, wait-until-consumer-parked, abort, drop} x chunk sizes {1,2} x waker policy {same, fresh per poll} x {0,2} spurious polls while parked, and body drops after 0..2 polls; capped at 400 (quick) / 4000 (thorough) schedules per program. Each executed schedule is replayed event by event on the Coq transition system (critical sections, wake-ups with waker identity, poll results) and the invariant J is evaluated after every event.' + GEN_NOTE,
+    rule='stateless depth-first enumeration of schedules of the real chunker (two OS threads under a baton, decision points: operation boundaries, the point right after every lock release of the producer -- reported by the verif-hooks mutex --, every consumer poll, and the point before any second lock acquisition inside one consumer poll) for all producer programs of <= 3 (quick) / 4 (thorough) operations over {write(chunk-completing), write(partial), flush, wait-until-consumer-parked, abort, drop} x chunk sizes {1,2} x waker policy {same, fresh per poll} x {0,2} spurious polls while parked, and body drops after 0..2 polls; capped at 400 (quick) / 4000 (thorough) schedules per program. Each executed schedule is replayed event by event on the Coq transition system (critical sections, wake-ups with waker identity, poll results) and the invariant J is evaluated after every event.' + GEN_NOTE,
     trusted_base=STREAM_TB + ['the baton scheduler of the harness (harness/src/sched_engine.rs) and the verif-hooks mutex wrapper in /repo/src/verif_hooks.rs'],
     assumptions=['std::sync::Mutex provides mutual exclusion; effects below the mutex (weak memory) are not exhibited', 'every operation of the real code holds the lock for contiguous sections and wakes only after releasing it (checked per schedule by the hook: wake-while-locked, lock count per operation)', 'write_all is not part of the concurrent programs (each of its writes is one such operation)'])
 
